@@ -10,3 +10,25 @@ package ingest
 //@   props C16
 //@   frame-only
 //@   frame shared i.rowsCount, i.asyncBlocks guarded-by i.mutex
+
+// After the workers are done the blocks are put in offset order. Whatever the workers recorded stays stored:
+// every block and block index named by the table is in the store.
+//@ func (*Inserter).sortBlocks
+//@   props C13
+//@   requires len(o.asyncBlocks) <= 16843010 && o.tbl != nil && forall(k, 0, len(o.asyncBlocks), member2(blkSet, o.db, sid(o.asyncBlocks[k].Sum)) && member2(blkIdxSet, o.db, sid(o.asyncBlocks[k].IdxSum)))
+//@   modifies o.tbl.Blocks, o.tbl.BlockIndices, o.asyncBlocks[:]
+//@   ensures len(o.tbl.Blocks) == len(o.tbl.BlockIndices) && forall(k, 0, len(o.tbl.Blocks), member2(blkSet, o.db, sid(o.tbl.Blocks[k])) && member2(blkIdxSet, o.db, sid(o.tbl.BlockIndices[k])))
+//@   loop 1 invariant iter <= n && n == len(o.asyncBlocks) && len(o.tbl.Blocks) == n && len(o.tbl.BlockIndices) == n && len(blkPKs) == n && o.tbl != nil
+//@   loop 1 invariant forall(k, 0, len(o.asyncBlocks), member2(blkSet, o.db, sid(o.asyncBlocks[k].Sum)) && member2(blkIdxSet, o.db, sid(o.asyncBlocks[k].IdxSum)))
+//@   loop 1 invariant forall(k, 0, iter, member2(blkSet, o.db, sid(o.tbl.Blocks[k])) && member2(blkIdxSet, o.db, sid(o.tbl.BlockIndices[k])))
+//@   loop 1 decreases n - iter
+
+// The table-building tail of ingest: after a crash at any store write, every table that is stored is usable (R3).
+// A new table is usable when it is returned.
+//@ func (*Inserter).ingestTableFromBlocks
+//@   props C13
+//@   requires i.db != nil && i.sorter != nil && R3(i.db)
+//@   ensures [C13] result1 == nil && result0 != nil ==> tableUsable(i.db, sid(result0))
+//@   crash-invariant [C13] R3(i.db)
+//@   loop 1 invariant R3(i.db) && i.db == old(i.db) && i.tbl != nil && i.sorter != nil && tblSet == old(tblSet) && grows(blkSet, old(blkSet)) && grows(blkIdxSet, old(blkIdxSet))
+//@   loop 1 invariant j == 0 || (len(i.asyncBlocks) <= 16843010 && forall(k, 0, len(i.asyncBlocks), member2(blkSet, i.db, sid(i.asyncBlocks[k].Sum)) && member2(blkIdxSet, i.db, sid(i.asyncBlocks[k].IdxSum))))
